@@ -5,9 +5,17 @@ import Mieru.Model.Time
 
 `K` is whatever `newBlockCipherList` produces; it depends on the instant only through
 `saltFromTime(now)`, i.e. through `now.Round(KeyRefreshInterval)`, so the model derives it as
-`derive (epoch now)` for an abstract `derive`.  The state is per password (the real
-`blockCipherCache` is a map keyed by password whose entries never interact).
+`derive (epoch now.wall)` for an abstract `derive`.  The state is per password (the real
+`blockCipherCache` is a map keyed by password whose entries never interact): ONE cache slot and ANY
+NUMBER of `StatelessDecryptor`s for that password (the server keeps one per user per configuration
+generation; each holds its own `ciphers` pointer), indexed by a natural number.
 The jitter drawn by `mrand.Intn(cacheValidMaxJitterMs)` is an explicit argument in milliseconds.
+
+Instants are Go `time.Time` values: a wall-clock reading and, for values that come from `time.Now()`,
+a monotonic reading.  `cipherKeyEpoch` / `saltFromTime` use the wall clock (`Round` strips the monotonic
+reading); `createTime.Add(…).Before(now)` compares MONOTONIC readings when both operands carry one and
+wall readings otherwise (package `time`).  After a step of the wall clock the two disagree; the model keeps
+both so that such histories are inside the theorems' quantifier.
 -/
 namespace Mieru.KeyCache
 open Mieru.Time
@@ -17,68 +25,118 @@ open Mieru.Time
     depend on its value, and the harness passes the value compiled from the source. -/
 def cacheValidNs : Int := 30000000000
 
+/-- a `time.Time`: Unix nanoseconds of the wall clock, and the monotonic reading if there is one -/
+structure Instant where
+  wall : Int
+  mono : Option Int := none
+deriving DecidableEq, Repr
+
+/-- `t.Add(d)`: both readings move -/
+def Instant.add (t : Instant) (d : Int) : Instant := ⟨t.wall + d, t.mono.map (· + d)⟩
+
+/-- `a.Before(b)`: monotonic readings if both have one, else wall readings -/
+def Instant.before (a b : Instant) : Prop :=
+  match a.mono, b.mono with
+  | some x, some y => x < y
+  | _, _ => a.wall < b.wall
+
+instance (a b : Instant) : Decidable (a.before b) := by
+  unfold Instant.before; split <;> infer_instance
+
+/-- an instant without monotonic reading (`time.Unix(0, ns)`) -/
+instance : Coe Int Instant := ⟨fun w => ⟨w, none⟩⟩
+
 structure Entry (K : Type) where
   keys : K
-  createTime : Int
+  createTime : Instant
   epoch : Int
 
-/-- per-password state: the cache slot and what one `StatelessDecryptor` holds -/
+/-- per-password state: the cache slot and what each `StatelessDecryptor` for the password holds -/
 structure State (K : Type) where
   cache : Option (Entry K)
-  held : Option (Entry K)
+  held : Nat → Option (Entry K)
 
-def State.empty {K : Type} : State K := ⟨none, none⟩
+def State.empty {K : Type} : State K := ⟨none, fun _ => none⟩
 
 /-- `entry.epoch != cipherKeyEpoch(now) || entry.createTime.Add(cacheValidInterval-jitter).Before(now)` -/
-def expired {K : Type} (validNs : Int) (e : Entry K) (now jitterMs : Int) : Prop :=
-  e.epoch ≠ epoch now ∨ e.createTime + (validNs - jitterMs * 1000000) < now
+def expired {K : Type} (validNs : Int) (e : Entry K) (now : Instant) (jitterMs : Int) : Prop :=
+  e.epoch ≠ epoch now.wall ∨ (e.createTime.add (validNs - jitterMs * 1000000)).before now
 
-instance {K : Type} (validNs : Int) (e : Entry K) (now j : Int) : Decidable (expired validNs e now j) := by
+instance {K : Type} (validNs : Int) (e : Entry K) (now : Instant) (j : Int) : Decidable (expired validNs e now j) := by
   unfold expired; infer_instance
 
-def fresh {K : Type} (derive : Int → K) (now : Int) : Entry K :=
-  ⟨derive (epoch now), now, epoch now⟩
+def fresh {K : Type} (derive : Int → K) (now : Instant) : Entry K :=
+  ⟨derive (epoch now.wall), now, epoch now.wall⟩
 
 /-- `getCachedCiphers(password, now)`: the entry returned and the new cache slot -/
-def getCached {K : Type} (validNs : Int) (derive : Int → K) (cache : Option (Entry K)) (now jitterMs : Int) :
+def getCached {K : Type} (validNs : Int) (derive : Int → K) (cache : Option (Entry K)) (now : Instant) (jitterMs : Int) :
     Entry K × Option (Entry K) :=
   match cache with
   | some e => if expired validNs e now jitterMs then (fresh derive now, some (fresh derive now)) else (e, some e)
   | none => (fresh derive now, some (fresh derive now))
 
-/-- the entry `tryDecryptAt` decrypts with, and the state afterwards -/
-def tryEntry {K : Type} (validNs : Int) (derive : Int → K) (s : State K) (now jitterMs : Int) : Entry K × State K :=
-  match s.held with
+/-- `entry == nil || entry.epoch != epoch` of `tryDecryptAt`: the decryptor goes back to the cache -/
+def refetch {K : Type} (held : Option (Entry K)) (now : Instant) : Prop :=
+  match held with
+  | none => True
+  | some h => h.epoch ≠ epoch now.wall
+
+instance {K : Type} (held : Option (Entry K)) (now : Instant) : Decidable (refetch held now) := by
+  unfold refetch; split <;> infer_instance
+
+/-- `d.ciphers.Store(entry)` for decryptor `dec` -/
+def setHeld {K : Type} (held : Nat → Option (Entry K)) (dec : Nat) (e : Entry K) : Nat → Option (Entry K) :=
+  fun i => if i = dec then some e else held i
+
+/-- the entry decryptor `dec`'s `tryDecryptAt` decrypts with, and the state afterwards -/
+def tryEntry {K : Type} (validNs : Int) (derive : Int → K) (s : State K) (dec : Nat) (now : Instant) (jitterMs : Int) :
+    Entry K × State K :=
+  match s.held dec with
   | some h =>
-    if h.epoch = epoch now then (h, s)
+    if h.epoch = epoch now.wall then (h, s)
     else
       let r := getCached validNs derive s.cache now jitterMs
-      (r.1, ⟨r.2, some r.1⟩)
+      (r.1, ⟨r.2, setHeld s.held dec r.1⟩)
   | none =>
     let r := getCached validNs derive s.cache now jitterMs
-    (r.1, ⟨r.2, some r.1⟩)
+    (r.1, ⟨r.2, setHeld s.held dec r.1⟩)
 
 inductive Op where
-  | lookup (now jitterMs : Int)      -- getCachedCiphers (BlockCipherFromPassword, TryDecrypt, …)
-  | tryDecrypt (now jitterMs : Int)  -- StatelessDecryptor.tryDecryptAt
+  | lookup (now : Instant) (jitterMs : Int)                 -- getCachedCiphers (BlockCipherFromPassword, TryDecrypt, …)
+  | tryDecrypt (dec : Nat) (now : Instant) (jitterMs : Int) -- StatelessDecryptor.tryDecryptAt of decryptor `dec`
 
-def Op.now : Op → Int
+def Op.now : Op → Instant
   | .lookup n _ => n
-  | .tryDecrypt n _ => n
+  | .tryDecrypt _ n _ => n
 
 /-- one operation: the entry it uses and the next state -/
 def step {K : Type} (validNs : Int) (derive : Int → K) (s : State K) : Op → Entry K × State K
   | .lookup now j =>
     let r := getCached validNs derive s.cache now j
     (r.1, { s with cache := r.2 })
-  | .tryDecrypt now j => tryEntry validNs derive s now j
+  | .tryDecrypt dec now j => tryEntry validNs derive s dec now j
 
 /-- run a history; returns, per operation, the instant and the entry used -/
-def run {K : Type} (validNs : Int) (derive : Int → K) : State K → List Op → List (Int × Entry K)
+def run {K : Type} (validNs : Int) (derive : Int → K) : State K → List Op → List (Instant × Entry K)
   | _, [] => []
   | s, op :: ops =>
     let r := step validNs derive s op
     (op.now, r.1) :: run validNs derive r.2 ops
+
+/-- Concurrent use.  `blockCipherCache` is a `sync.Map` and `StatelessDecryptor.ciphers` an
+    `atomic.Pointer`: each Load returns SOME value stored earlier (or nothing), not necessarily the
+    latest one, and another goroutine may store between an operation's Load and its Store.  A
+    concurrent history is therefore a sequence of operations each of which sees an ARBITRARY pair of
+    previously stored entries (`pool` = everything ever stored) as cache slot and held entry, and whose
+    result joins the pool.  (Assumes what the Go memory model gives for these two types: a Load
+    returns a value that was stored, whole.) -/
+inductive ConcRun {K : Type} (validNs : Int) (derive : Int → K) : List (Entry K) → List (Instant × Entry K) → Prop
+  | nil : ConcRun validNs derive [] []
+  | op (pool : List (Entry K)) (used : List (Instant × Entry K)) (c h : Option (Entry K))
+      (hc : ∀ e, c = some e → e ∈ pool) (hh : ∀ e, h = some e → e ∈ pool) (o : Op)
+      (prev : ConcRun validNs derive pool used) :
+      ConcRun validNs derive ((step validNs derive ⟨c, fun _ => h⟩ o).1 :: pool)
+        ((o.now, (step validNs derive ⟨c, fun _ => h⟩ o).1) :: used)
 
 /-- the three keys of an entry when keys are indexed by the slot they were derived for:
     previous, current, next slot (newBlockCipherList over saltFromTime) -/
